@@ -1,1 +1,168 @@
-import CnlModel.RoundCvt
+import CnlProofs.RoundCvt
+/-!
+# C09 — narrowing conversions under a rounding mode are correctly rounded
+
+Model: `CnlModel.RoundCvt` (`rounding/convert_operator.h`, `scaled_integer/convert_operator.h`).
+Spec: `CnlSpec.RoundCvt` — `roundShift m v k` is `v / 2^k` rounded in mode `m`
+(`.floor`, `.nearestUp` = ties toward +∞, `.nearestAway` = ties away from zero, `.truncate`),
+`roundDyadic m a e` is `a · 2^e` rounded; both are tied to the rounded quotient `roundDiv` of C08 and
+to its division-free characterisation (`roundShift_isRounded`).
+
+## scaled → scaled, built-in representations of every width (`k = eD − eS`)
+
+* `scaled_no_digits_lost_is_native`, `scaled_exact_when_no_digits_lost` — `eD ≤ eS`: every tag is
+  the native conversion, and that is exact when the scaled value fits.
+* `scaled_neg_inf` — `k > 0`: the floor, for every source value (no further hypothesis).
+* `scaled_ties_up`, `scaled_nearest` — correctly rounded **provided** the destination unit `2^k`
+  fits the source representation (`k < S.digits`) and the biased value `v ± 2^(k−1)` fits the
+  promoted source type.  Both hypotheses are necessary: `scaled_half_unit_refuted`,
+  `scaled_bias_overflow_refuted` (classes `C09.scaled_half_unit_exceeds_source_rep`,
+  `C09.scaled_bias_overflow_near_limits`).  `k < (promote D).digits` and `CmpZeroOk` only say that
+  the instantiation compiles (`from_rep<result>(1)` converted to the source, `from >= 0`) — except
+  for `eS > 0`, where `from >= 0` shifts the *source value* left by `eS` and must not overflow.
+* `scaled_native_truncates` — the native tag truncates toward zero.
+-/
+namespace Cnl.C09
+open Cnl Cnl.Spec Cnl.Rounding Cnl.RoundCvt Cnl.RoundCvtP
+
+/-! ## the specification is consistent -/
+
+/-- the integer formulas select what the rounding mode prescribes (division-free characterisation
+shared with C08, which has exactly one solution: `C08.isRounded_unique`) -/
+theorem roundShift_isRounded (m : RoundMode) (v : Int) (k : Nat) :
+    IsRounded m v (2^k) (roundShift m v k) := Spec.roundShift_isRounded m v k
+
+/-- `⌊(v + 2^(k−1)) / 2^k⌋ = ⌊v/2^k + 1/2⌋` -/
+theorem shift_bias_eq (v : Int) (k : Nat) (hk : 0 < k) :
+    (v + 2^(k-1)) / 2^k = roundShift .nearestUp v k := Spec.shift_bias_eq v hk
+
+/-- truncating `(v ± 2^(k−1)) / 2^k`, the bias taking the sign of `v`, is rounding to nearest with
+ties away from zero -/
+theorem trunc_bias_eq (v : Int) (k : Nat) (hk : 0 < k) :
+    (if 0 ≤ v then v + 2^(k-1) else v - 2^(k-1)).tdiv (2^k) = roundShift .nearestAway v k :=
+  Spec.trunc_bias_eq v hk
+
+/-! ## scaled → scaled -/
+
+/-- conversions that lose no digits: every rounding tag behaves as the native conversion … -/
+theorem scaled_no_digits_lost_is_native (mode : RdMode) (S D : IntTy) (eS eD : Int) (v : Int) (h : eD ≤ eS) :
+    scaledToScaled mode S eS D eD v = scaledToScaled .nat S eS D eD v := by
+  rw [noloss_eq_plain mode S D eS eD v h, nat_eq_plain]
+
+/-- … which is exact: the representation becomes `v · 2^(eS − eD)` whenever that value is
+representable in the destination (and in the promoted source type, where it is computed) -/
+theorem scaled_exact_when_no_digits_lost (mode : RdMode) (S D : IntTy) (hS : 1 ≤ S.bits) (hD : 1 ≤ D.bits)
+    (eS eD : Int) (v : Int) (h : eD ≤ eS) (hv : S.InRange v)
+    (hw : eS = eD ∨ (eS - eD).toNat < (promote S).digits)
+    (hfitS : (promote S).InRange (v * 2^(eS - eD).toNat)) (hfitD : D.InRange (v * 2^(eS - eD).toNat)) :
+    scaledToScaled mode S eS D eD v = .ok (D, v * 2^(eS - eD).toNat) := by
+  rw [noloss_eq_plain mode S D eS eD v h, plain_up_eval S D eS eD v hS h hw hv hfitS, IntTy.wrap_id hD hfitD]
+
+/-- neg_inf: the floor of the exact source value at the destination resolution, for every `v`
+(the result has the promoted source representation type) -/
+theorem scaled_neg_inf (S D : IntTy) (eS eD : Int) (v : Int) (h : eS < eD)
+    (hk : (eD - eS).toNat < (promote S).bits) :
+    scaledToScaled .ninf S eS D eD v = .ok (promote S, roundShift .floor v (eD - eS).toNat) :=
+  ninf_eval S D eS eD v h hk
+
+/-- tie_to_pos_inf: `⌊v/2^k + 1/2⌋`, converted to the destination representation -/
+theorem scaled_ties_up (S D : IntTy) (hS : 1 ≤ S.bits) (eS eD : Int) (v : Int) (h : eS < eD)
+    (hkD : (eD - eS).toNat < (promote D).digits) (hkS : (eD - eS).toNat < S.digits)
+    (hv : S.InRange v) (hbias : (promote S).InRange (v + 2^((eD - eS).toNat - 1))) :
+    scaledToScaled .tpi S eS D eD v = .ok (D, D.wrap (roundShift .nearestUp v (eD - eS).toNat)) := by
+  rw [tpi_eval S D eS eD v hS h hkD hkS hv hbias, Spec.shift_bias_eq v (by omega)]
+
+/-- nearest: `sgn v · ⌊|v|/2^k + 1/2⌋` (ties away from zero), converted to the destination
+representation -/
+theorem scaled_nearest (S D : IntTy) (hS : 1 ≤ S.bits) (eS eD : Int) (v : Int) (h : eS < eD)
+    (hkD : (eD - eS).toNat < (promote D).digits) (hkS : (eD - eS).toNat < S.digits)
+    (hv : S.InRange v) (hcmp : CmpZeroOk S eS v)
+    (hbias : (promote S).InRange (if 0 ≤ v then v + 2^((eD - eS).toNat - 1) else v - 2^((eD - eS).toNat - 1))) :
+    scaledToScaled .nrst S eS D eD v = .ok (D, D.wrap (roundShift .nearestAway v (eD - eS).toNat)) := by
+  rw [nrst_eval S D eS eD v hS h hkD hkS hv hcmp hbias, Spec.trunc_bias_eq v (by omega)]
+
+/-- native: truncation toward zero -/
+theorem scaled_native_truncates (S D : IntTy) (hS : 1 ≤ S.bits) (eS eD : Int) (v : Int) (h : eS < eD)
+    (hk : (eD - eS).toNat < (promote S).digits) (hv : S.InRange v) :
+    scaledToScaled .nat S eS D eD v = .ok (D, D.wrap (roundShift .truncate v (eD - eS).toNat)) :=
+  nat_down_eval S D eS eD v hS h hk hv
+
+/-- all four tags at once, when the rounded value is representable in the destination -/
+theorem scaled_correctly_rounded (mode : RdMode) (S D : IntTy) (hS : 1 ≤ S.bits) (hD : 1 ≤ D.bits)
+    (eS eD : Int) (v : Int) (h : eS < eD)
+    (hkD : (eD - eS).toNat < (promote D).digits) (hkS : (eD - eS).toNat < S.digits)
+    (hv : S.InRange v) (hcmp : mode = .nrst → CmpZeroOk S eS v)
+    (hbias : (promote S).InRange (if 0 ≤ v ∨ mode = .tpi then v + 2^((eD - eS).toNat - 1) else v - 2^((eD - eS).toNat - 1)))
+    (hfit : D.InRange (roundShift (modeOf mode) v (eD - eS).toNat)) :
+    (scaledToScaled mode S eS D eD v).map (·.2) = .ok (roundShift (modeOf mode) v (eD - eS).toNat) := by
+  have hkP := digits_lt_promote hS hkS
+  cases mode <;> simp only [modeOf] at hfit ⊢
+  case nat => rw [scaled_native_truncates S D hS eS eD v h hkP hv, IntTy.wrap_id hD hfit]; rfl
+  case ninf =>
+    rw [scaled_neg_inf S D eS eD v h (Nat.lt_of_lt_of_le hkP (digits_le_bits _))]; rfl
+  case tpi =>
+    simp only [or_true, ite_true] at hbias
+    rw [scaled_ties_up S D hS eS eD v h hkD hkS hv hbias, IntTy.wrap_id hD hfit]; rfl
+  case nrst =>
+    simp only [reduceCtorEq, or_false] at hbias
+    rw [scaled_nearest S D hS eS eD v h hkD hkS hv (hcmp rfl) hbias, IntTy.wrap_id hD hfit]; rfl
+
+/-! ## the hypotheses of `scaled_ties_up` / `scaled_nearest` are necessary (open defect classes) -/
+
+/-- class `C09.scaled_bias_overflow_near_limits`: `from + half` wraps in `unsigned` (witness
+`s2s tpi u32 -16 u32 -8 4294967295`): the code returns 0, the correctly rounded value 16777216 is
+representable, and only the bias hypothesis of `scaled_ties_up` fails -/
+theorem scaled_bias_overflow_refuted :
+    scaledToScaled .tpi u32 (-16) u32 (-8) 4294967295 = .ok (u32, 0)
+      ∧ roundShift .nearestUp 4294967295 8 = 16777216 ∧ u32.InRange 16777216
+      ∧ (8 < (promote u32).digits ∧ 8 < u32.digits ∧ u32.InRange 4294967295)
+      ∧ ¬ (promote u32).InRange (4294967295 + 2^(8-1)) := by decide +kernel
+
+/-- … for a signed source the overflowing bias is undefined behaviour -/
+theorem scaled_bias_overflow_signed_refuted :
+    scaledToScaled .nrst i32 (-16) i32 (-8) 2147483647 = .ub .signedOverflow
+      ∧ roundShift .nearestAway 2147483647 8 = 8388608 ∧ i32.InRange 8388608
+      ∧ scaledToScaled .nrst i32 (-16) i32 (-8) (-2147483648) = .ub .signedOverflow
+      ∧ roundShift .nearestAway (-2147483648) 8 = -8388608 := by decide +kernel
+
+/-- class `C09.scaled_half_unit_exceeds_source_rep`: `half()` converts the destination unit `2^7`
+to the `int8` source type, where it is `-128` (witness `s2s tpi i8 -7 i8 0 -128`): the code returns
+`-2` for `-128/128 = -1`; only `k < S.digits` fails -/
+theorem scaled_half_unit_refuted :
+    scaledToScaled .tpi i8 (-7) i8 0 (-128) = .ok (i8, -2)
+      ∧ roundShift .nearestUp (-128) 7 = -1 ∧ i8.InRange (-1)
+      ∧ (7 < (promote i8).digits ∧ i8.InRange (-128) ∧ (promote i8).InRange (-128 + 2^(7-1)))
+      ∧ ¬ (7 < i8.digits) := by decide +kernel
+
+/-- `CmpZeroOk` is needed for positive source exponents: `from >= 0` shifts the source value left -/
+theorem scaled_nearest_cmp_overflow_refuted :
+    scaledToScaled .nrst i32 4 i32 8 1000000000 = .ub .signedOverflow
+      ∧ roundShift .nearestAway 1000000000 4 = 62500000 ∧ ¬ CmpZeroOk i32 4 1000000000 := by decide +kernel
+
+/-! ## non-vacuity: instances in every sign quadrant, ties included -/
+
+-- 40/16 = 2.5, 41/16, 39/16 and their negatives, `int16` at 2^-4 → `int8` at 2^0
+example : scaledToScaled .nrst i16 (-4) i8 0 40 = .ok (i8, 3) ∧ scaledToScaled .nrst i16 (-4) i8 0 (-40) = .ok (i8, -3)
+    ∧ scaledToScaled .nrst i16 (-4) i8 0 39 = .ok (i8, 2) ∧ scaledToScaled .nrst i16 (-4) i8 0 (-39) = .ok (i8, -2) := by decide +kernel
+example : scaledToScaled .tpi i16 (-4) i8 0 40 = .ok (i8, 3) ∧ scaledToScaled .tpi i16 (-4) i8 0 (-40) = .ok (i8, -2)
+    ∧ scaledToScaled .tpi i16 (-4) i8 0 (-41) = .ok (i8, -3) ∧ scaledToScaled .tpi i16 (-4) i8 0 (-24) = .ok (i8, -1) := by decide +kernel
+example : scaledToScaled .ninf i16 (-4) i8 0 40 = .ok (i32, 2) ∧ scaledToScaled .ninf i16 (-4) i8 0 (-40) = .ok (i32, -3)
+    ∧ scaledToScaled .ninf i16 (-4) i8 0 (-48) = .ok (i32, -3) ∧ scaledToScaled .ninf i16 (-4) i8 0 (-1) = .ok (i32, -1) := by decide +kernel
+example : scaledToScaled .nat i16 (-4) i8 0 40 = .ok (i8, 2) ∧ scaledToScaled .nat i16 (-4) i8 0 (-40) = .ok (i8, -2) := by decide +kernel
+-- positive exponents on both sides, 64-bit and unsigned representations
+example : scaledToScaled .nrst i64 3 i64 5 (-6) = .ok (i64, -2) ∧ scaledToScaled .tpi i64 3 i64 5 (-6) = .ok (i64, -1)
+    ∧ scaledToScaled .nrst u64 3 u8 5 6 = .ok (u8, 2) ∧ scaledToScaled .ninf u64 3 u8 5 7 = .ok (u64, 1) := by decide +kernel
+-- no digits lost: every tag multiplies exactly
+example : scaledToScaled .nrst i8 0 i32 (-4) (-7) = .ok (i32, -112) ∧ scaledToScaled .tpi i8 0 i32 (-4) (-7) = .ok (i32, -112)
+    ∧ scaledToScaled .ninf i8 2 i16 2 (-7) = .ok (i16, -7) := by decide +kernel
+-- the hypotheses of `scaled_nearest` at the limits of `int`: the largest / smallest `v` whose bias fits
+example : (8 < (promote i32).digits ∧ 8 < i32.digits ∧ i32.InRange 2147483519 ∧ CmpZeroOk i32 (-16) 2147483519
+    ∧ (promote i32).InRange (2147483519 + 2^(8-1))) ∧ scaledToScaled .nrst i32 (-16) i32 (-8) 2147483519 = .ok (i32, 8388607) := by decide +kernel
+example : ((promote i32).InRange (-2147483520 - 2^(8-1)) ∧ CmpZeroOk i32 (-16) (-2147483520))
+    ∧ scaledToScaled .nrst i32 (-16) i32 (-8) (-2147483520) = .ok (i32, -8388608) := by decide +kernel
+example : CmpZeroOk i16 3 (-1000) ∧ scaledToScaled .nrst i16 3 i16 5 (-1000) = .ok (i16, -250)
+    ∧ scaledToScaled .nrst i16 3 i16 5 (-1002) = .ok (i16, -251) := by decide +kernel
+example : IsRounded .nearestAway (-40) (2^4) (-3) ∧ IsRounded .nearestUp (-40) (2^4) (-2) ∧ IsRounded .floor (-40) (2^4) (-3)
+    ∧ IsRounded .truncate (-40) (2^4) (-2) := by decide
+
+end Cnl.C09
